@@ -15,10 +15,32 @@ inductive Ev where
   | stop (v : Nat)
   deriving DecidableEq, Repr
 
+/-- `exiting n` / `cycling n`: an EXIT / CYCLE is under way that belongs to the loop `n` levels
+above the innermost enclosing loop (construct names: `EXIT outer`). -/
 inductive Out where
-  | normal | exiting | cycling | returning
+  | normal | returning
+  | exiting (n : Nat)
+  | cycling (n : Nat)
   | jumping (l : Nat)
   deriving DecidableEq, Repr
+
+/-- Directives with a body (semantically transparent for a serial execution). -/
+inductive Dir where
+  | ompParallel | ompDo | ompParallelDo | accParallel | accLoop | accKernels
+  deriving DecidableEq, Repr
+
+/-- `isinstance(d, (OMPDoDirective, ACCLoopDirective))` -/
+def Dir.isLoopDir : Dir → Bool
+  | .ompDo | .ompParallelDo | .accLoop => true
+  | _ => false
+/-- `isinstance(d, ACCDirective)` -/
+def Dir.isAcc : Dir → Bool
+  | .accParallel | .accLoop | .accKernels => true
+  | _ => false
+/-- `isinstance(d, (OMPParallelDirective, ACCParallelDirective))` -/
+def Dir.isParallel : Dir → Bool
+  | .ompParallel | .ompParallelDo | .accParallel => true
+  | _ => false
 
 /-- The four PSyData transformations / node classes. -/
 inductive Kind where
@@ -38,8 +60,12 @@ inductive Stmt where
   | basic (cb : Bool)        -- a step without control transfer; `cb`: it is a CodeBlock (PRINT, ...)
   | seq (a b : Stmt)
   | ite (a b : Stmt)         -- IfBlock on an abstract condition
-  | loop (body : Stmt)       -- Loop / WhileLoop with an abstract trip count
-  | exit | cycle | ret
+  | loop (psy : Bool) (body : Stmt)  -- loop with an abstract trip count; `psy`: it is a PSyIR `Loop` node
+                             -- (not a WhileLoop, not a DO construct inside a CodeBlock)
+  | exit (n : Nat)           -- EXIT of the loop `n` levels above the innermost one
+  | cycle (n : Nat)
+  | ret (cb : Bool)          -- RETURN; `cb`: a Return_Stmt inside a CodeBlock (not a PSyIR Return node)
+  | dir (d : Dir) (body : Stmt)      -- directive with its body
   | goto (l : Nat)
   | label (l : Nat)          -- labelled CONTINUE
   | emit (e : Ev)            -- lowered `CALL var % PreStart(...)` / `CALL var % PostEnd`
@@ -64,15 +90,18 @@ structure Res where
 def idle (m : Option Nat) (k : Nat) : Res :=
   ⟨[], match m with | none => .normal | some L => .jumping L, k⟩
 
-/-- `n` iterations of a loop body; EXIT ends the loop, CYCLE ends the iteration,
-RETURN and GOTO leave the loop. -/
+/-- `n` iterations of a loop body; an EXIT of this loop ends it, a CYCLE of this loop ends the
+iteration, EXIT/CYCLE of an outer loop, RETURN and GOTO leave the loop. -/
 def iter (f : Nat → Res) : Nat → Nat → Res
   | 0, k => ⟨[], .normal, k⟩
   | n+1, k =>
     let r := f k
     match r.out with
-    | .normal | .cycling => let r2 := iter f n r.k; ⟨r.ev ++ r2.ev, r2.out, r2.k⟩
-    | .exiting => ⟨r.ev, .normal, r.k⟩
+    | .normal => let r2 := iter f n r.k; ⟨r.ev ++ r2.ev, r2.out, r2.k⟩
+    | .cycling 0 => let r2 := iter f n r.k; ⟨r.ev ++ r2.ev, r2.out, r2.k⟩
+    | .cycling (j+1) => ⟨r.ev, .cycling j, r.k⟩
+    | .exiting 0 => ⟨r.ev, .normal, r.k⟩
+    | .exiting (j+1) => ⟨r.ev, .exiting j, r.k⟩
     | _ => r
 
 /-- Execution with oracle `o`.  Mode `none`: run.  Mode `some L`: control is looking forward
@@ -92,14 +121,16 @@ def exec (o : Nat → Nat) : Stmt → Option Nat → Nat → Res
     | _ => r
   | .ite a b, none, k => if o k ≠ 0 then exec o a none (k+1) else exec o b none (k+1)
   | .ite _ _, some L, k => ⟨[], .jumping L, k⟩
-  | .loop body, none, k => iter (fun k' => exec o body none k') (o k) (k+1)
-  | .loop _, some L, k => ⟨[], .jumping L, k⟩
-  | .exit, none, k => ⟨[], .exiting, k⟩
-  | .exit, some L, k => ⟨[], .jumping L, k⟩
-  | .cycle, none, k => ⟨[], .cycling, k⟩
-  | .cycle, some L, k => ⟨[], .jumping L, k⟩
-  | .ret, none, k => ⟨[], .returning, k⟩
-  | .ret, some L, k => ⟨[], .jumping L, k⟩
+  | .loop _ body, none, k => iter (fun k' => exec o body none k') (o k) (k+1)
+  | .loop _ _, some L, k => ⟨[], .jumping L, k⟩
+  | .dir _ body, none, k => exec o body none k
+  | .dir _ _, some L, k => ⟨[], .jumping L, k⟩
+  | .exit n, none, k => ⟨[], .exiting n, k⟩
+  | .exit _, some L, k => ⟨[], .jumping L, k⟩
+  | .cycle n, none, k => ⟨[], .cycling n, k⟩
+  | .cycle _, some L, k => ⟨[], .jumping L, k⟩
+  | .ret _, none, k => ⟨[], .returning, k⟩
+  | .ret _, some L, k => ⟨[], .jumping L, k⟩
   | .goto l, none, k => ⟨[], .jumping l, k⟩
   | .goto _, some L, k => ⟨[], .jumping L, k⟩
   | .label _, none, k => ⟨[], .normal, k⟩
@@ -122,7 +153,8 @@ and are not events). -/
 def lower : Stmt → Stmt
   | .seq a b => .seq (lower a) (lower b)
   | .ite a b => .ite (lower a) (lower b)
-  | .loop b => .loop (lower b)
+  | .loop p b => .loop p (lower b)
+  | .dir d b => .dir d (lower b)
   | .region r b => .seq (.emit (.start r.var)) (.seq (lower b) (.emit (.stop r.var)))
   | s => s
 
@@ -142,40 +174,44 @@ def dyckCheck : List Nat → List Ev → Bool
 def targets : Stmt → List Nat
   | .seq a b => targets a ++ targets b
   | .ite a b => targets a ++ targets b
-  | .loop b => targets b
+  | .loop _ b => targets b
+  | .dir _ b => targets b
   | .region _ b => targets b
   | .goto l => [l]
   | _ => []
 
-/-- The FIXED refusal rule of `PSyDataTrans.validate` for the statements of a region
-(`inLoop`: we are inside a loop that is itself inside the region; `T`: labels used by the
-GOTOs of the routine): no RETURN (`excluded_node_types` for PSyIR Return nodes; `_leaves_region`
-for RETURN statements inside CodeBlocks, fixes/C28-return-in-codeblock.patch), no GOTO, no
-statement that is the target of a GOTO, no EXIT/CYCLE that does not belong to a loop inside the
-region.  The harness opens the fparser2 tree of every CodeBlock (ASSOCIATE/BLOCK bodies are
-statements of the enclosing list, IF/SELECT CASE are `ite`, DO constructs are `loop`), so this
-function sees the same structure as `_leaves_region`. -/
-def safe (T : List Nat) : Bool → Stmt → Bool
+/-- The FIXED refusal rule of `PSyDataTrans.validate` for the statements of a region (`d`: number
+of loops that enclose the statement and are themselves inside the region; `T`: labels used by the
+GOTOs of the routine): no RETURN (`excluded_node_types` for PSyIR Return nodes — skipped when
+`allowRet`, i.e. with `options["node-type-check"] = False`; `_leaves_region` for RETURN statements
+inside CodeBlocks, always), no GOTO, no statement that is the target of a GOTO, no EXIT/CYCLE
+(plain or with a construct name) that does not belong to a loop inside the region.  The harness
+opens the fparser2 tree of every CodeBlock (ASSOCIATE/BLOCK bodies are statements of the enclosing
+list, IF/SELECT CASE are `ite`, DO constructs are `loop`), so this function sees the same structure
+as `_leaves_region`. -/
+def safe (allowRet : Bool) (T : List Nat) : Nat → Stmt → Bool
   | _, .skip => true
   | _, .basic _ => true
   | _, .emit _ => true
-  | d, .seq a b => safe T d a && safe T d b
-  | d, .ite a b => safe T d a && safe T d b
-  | _, .loop b => safe T true b
-  | d, .exit => d
-  | d, .cycle => d
-  | _, .ret => false
+  | d, .seq a b => safe allowRet T d a && safe allowRet T d b
+  | d, .ite a b => safe allowRet T d a && safe allowRet T d b
+  | d, .loop _ b => safe allowRet T (d+1) b
+  | d, .dir _ b => safe allowRet T d b
+  | d, .exit n => decide (n < d)
+  | d, .cycle n => decide (n < d)
+  | _, .ret cb => allowRet && !cb
   | _, .goto _ => false
   | _, .label l => !T.contains l
-  | d, .region _ b => safe T d b
+  | d, .region _ b => safe allowRet T d b
 
-/-- The PINNED rule: `excluded_node_types = (Return,)` only. -/
+/-- The PINNED rule (before the fixes): `excluded_node_types = (Return,)` only. -/
 def safePinned : Stmt → Bool
   | .seq a b => safePinned a && safePinned b
   | .ite a b => safePinned a && safePinned b
-  | .loop b => safePinned b
+  | .loop _ b => safePinned b
+  | .dir _ b => safePinned b
   | .region _ b => safePinned b
-  | .ret => false
+  | .ret cb => cb
   | _ => true
 
 /-- Contains a CodeBlock (EXIT, CYCLE, GOTO, labelled statements and lowered PSyData calls are
@@ -183,33 +219,15 @@ CodeBlocks in this PSyclone version) or an ExtractNode: `ExtractTrans.excluded_n
 def extractExcluded : Stmt → Bool
   | .seq a b => extractExcluded a || extractExcluded b
   | .ite a b => extractExcluded a || extractExcluded b
-  | .loop b => extractExcluded b
+  | .loop _ b => extractExcluded b
+  | .dir _ b => extractExcluded b
   | .region r b => r.kind == .extract || extractExcluded b
   | .basic cb => cb
-  | .exit | .cycle | .goto _ | .label _ | .emit _ => true
+  | .ret cb => cb
+  | .exit _ | .cycle _ | .goto _ | .label _ | .emit _ => true
   | _ => false
 
-inductive Verdict where
-  | ok | empty | transfer | excluded
-  deriving DecidableEq, Repr
-
-/-- `validate` of the four transformations on a list of consecutive statements of one
-Schedule (the other refusals of the real code concern directives, symbol-name clashes and
-malformed node lists, which the generated programs do not contain). -/
-def validate (kind : Kind) (T : List Nat) (mid : List Stmt) : Verdict :=
-  if mid.isEmpty then .empty
-  else if !safe T false (seqs mid) then .transfer
-  else if kind == .extract && extractExcluded (seqs mid) then .excluded
-  else .ok
-
-/-- The same with the pinned rule. -/
-def validatePinned (kind : Kind) (mid : List Stmt) : Verdict :=
-  if mid.isEmpty then .empty
-  else if kind == .extract && extractExcluded (seqs mid) then .excluded
-  else if kind != .extract && !safePinned (seqs mid) then .excluded
-  else .ok
-
-/-! ## apply -/
+/-! ## where a region is placed -/
 
 /-- Where in the tree the Schedule that is being instrumented sits. -/
 inductive Ctx where
@@ -218,7 +236,8 @@ inductive Ctx where
   | seqR (a : Stmt) (c : Ctx)
   | iteT (c : Ctx) (b : Stmt)
   | iteE (a : Stmt) (c : Ctx)
-  | loopB (c : Ctx)
+  | loopB (psy : Bool) (c : Ctx)
+  | dirB (d : Dir) (c : Ctx)
   | regionB (r : RInfo) (c : Ctx)
   deriving Repr
 
@@ -228,8 +247,110 @@ def plug : Ctx → Stmt → Stmt
   | .seqR a c, s => .seq a (plug c s)
   | .iteT c b, s => .ite (plug c s) b
   | .iteE a c, s => .ite a (plug c s)
-  | .loopB c, s => .loop (plug c s)
+  | .loopB p c, s => .loop p (plug c s)
+  | .dirB d c, s => .dir d (plug c s)
   | .regionB r c, s => .region r (plug c s)
+
+/-- The directives that enclose the hole, innermost last. -/
+def ancestorDirs : Ctx → List Dir
+  | .hole => []
+  | .seqL c _ => ancestorDirs c
+  | .seqR _ c => ancestorDirs c
+  | .iteT c _ => ancestorDirs c
+  | .iteE _ c => ancestorDirs c
+  | .loopB _ c => ancestorDirs c
+  | .dirB d c => d :: ancestorDirs c
+  | .regionB _ c => ancestorDirs c
+
+/-- `node_list[0].parent.parent` when it is a directive: the hole is the directive's own body. -/
+def parentDir : Ctx → Option Dir
+  | .hole => none
+  | .seqL c _ => parentDir c
+  | .seqR _ c => parentDir c
+  | .iteT c _ => parentDir c
+  | .iteE _ c => parentDir c
+  | .loopB _ c => parentDir c
+  | .dirB d .hole => some d
+  | .dirB _ c => parentDir c
+  | .regionB _ c => parentDir c
+
+def isPsyLoop : Stmt → Bool
+  | .loop psy _ => psy
+  | _ => false
+
+/-! ## validate -/
+
+inductive Verdict where
+  | ok | empty | directive | option | clash | transfer | excluded
+  deriving DecidableEq, Repr
+
+/-- The options that matter: `options["node-type-check"]`, whether `options["prefix"]` (if given)
+is one of the configured PSyData prefixes, whether `options["region_name"]` (if given) is a pair of
+non-empty strings. -/
+structure Opts where
+  typeCheck : Bool := true
+  prefixOK : Bool := true
+  nameOK : Bool := true
+  deriving DecidableEq, Repr
+
+/-- Refusals that depend on the directives around the placement.
+`PSyDataTrans.validate`: not directly inside an `OMPDoDirective`/`ACCLoopDirective`, not inside any
+`ACCDirective`.  `ExtractTrans`/`ReadOnlyVerifyTrans`/`NanTestTrans.validate`: no `Loop` that is a
+direct child of a directive's body, not inside an OpenMP/OpenACC parallel region. -/
+def dirRefused (kind : Kind) (c : Ctx) (mid : List Stmt) : Bool :=
+  (match parentDir c with | some d => d.isLoopDir | none => false)
+  || (ancestorDirs c).any Dir.isAcc
+  || (kind != .profile &&
+      (((parentDir c).isSome && mid.any isPsyLoop) || (ancestorDirs c).any Dir.isParallel))
+
+/-- `validate` of the four transformations on a list `mid` of consecutive statements of the
+Schedule at `c`.  `clash`: the symbol table already has a symbol (without the PSyData tag) whose
+name is that of the PSyData type or module of this transformation.  With
+`options["node-type-check"] = False` the `excluded_node_types` test is skipped (the user takes
+responsibility), but not the control-transfer test of the CodeBlocks. -/
+def validate (kind : Kind) (opts : Opts) (clash : Bool) (T : List Nat) (c : Ctx) (mid : List Stmt) :
+    Verdict :=
+  if mid.isEmpty then .empty
+  else if dirRefused kind c mid then .directive
+  else if !opts.nameOK || !opts.prefixOK then .option
+  else if clash then .clash
+  else if !safe (!opts.typeCheck) T 0 (seqs mid) then .transfer
+  else if opts.typeCheck && kind == .extract && extractExcluded (seqs mid) then .excluded
+  else .ok
+
+/-- The same with the pinned rule (before fixes/C28-*.patch). -/
+def validatePinned (kind : Kind) (opts : Opts) (clash : Bool) (c : Ctx) (mid : List Stmt) : Verdict :=
+  if mid.isEmpty then .empty
+  else if dirRefused kind c mid then .directive
+  else if !opts.nameOK || !opts.prefixOK then .option
+  else if clash then .clash
+  else if opts.typeCheck && kind == .extract && extractExcluded (seqs mid) then .excluded
+  else if opts.typeCheck && kind != .extract && !safePinned (seqs mid) then .excluded
+  else .ok
+
+/-! ## apply -/
+
+/-- Ids of the PSyData variables that occur in a program (nodes and lowered calls). -/
+def usedVars : Stmt → List Nat
+  | .seq a b => usedVars a ++ usedVars b
+  | .ite a b => usedVars a ++ usedVars b
+  | .loop _ b => usedVars b
+  | .dir _ b => usedVars b
+  | .region r b => r.var :: usedVars b
+  | .emit (.start v) => [v]
+  | .emit (.stop v) => [v]
+  | _ => []
+
+def kindNum : Kind → Nat
+  | .profile => 0 | .extract => 1 | .nanTest => 2 | .readOnly => 3
+
+/-- `symbol_table.next_available_name("<prefix>_psy_data")`: the variable `<prefix>_psy_data` has id
+`kind`, `<prefix>_psy_data_n` has id `4*n + kind`; the first `n` whose name is free is taken. -/
+def firstFree (kind : Nat) (used : List Nat) : Nat → Nat → Nat
+  | 0, n => 4 * (n + used.foldl max 0 + 1) + kind     -- not reached: `fuel = used.length + 1`
+  | fuel+1, n => if used.contains (4 * n + kind) then firstFree kind used fuel (n+1) else 4 * n + kind
+
+def nextVar (kind : Kind) (used : List Nat) : Nat := firstFree (kindNum kind) used (used.length + 1) 0
 
 /-- `PSyDataTrans.apply`: the statements `mid` (between `pre` and `post` in their Schedule) are
 detached and become the body of a new PSyData node inserted at their position. -/
@@ -239,14 +360,19 @@ def wrapped (c : Ctx) (pre mid post : List Stmt) (r : RInfo) : Stmt :=
 def original (c : Ctx) (pre mid post : List Stmt) : Stmt :=
   plug c (seqs (pre ++ mid ++ post))
 
-def applyAt (c : Ctx) (pre mid post : List Stmt) (r : RInfo) : Except Verdict Stmt :=
-  match validate r.kind (targets (original c pre mid post)) mid with
-  | .ok => .ok (wrapped c pre mid post r)
+def newRegion (c : Ctx) (pre mid post : List Stmt) (kind : Kind) (name : Option (Nat × Nat)) : RInfo :=
+  ⟨nextVar kind (usedVars (original c pre mid post)), kind, name⟩
+
+def applyAt (c : Ctx) (pre mid post : List Stmt) (kind : Kind) (name : Option (Nat × Nat))
+    (opts : Opts) (clash : Bool) : Except Verdict Stmt :=
+  match validate kind opts clash (targets (original c pre mid post)) c mid with
+  | .ok => .ok (wrapped c pre mid post (newRegion c pre mid post kind name))
   | v => .error v
 
-def applyAtPinned (c : Ctx) (pre mid post : List Stmt) (r : RInfo) : Except Verdict Stmt :=
-  match validatePinned r.kind mid with
-  | .ok => .ok (wrapped c pre mid post r)
+def applyAtPinned (c : Ctx) (pre mid post : List Stmt) (kind : Kind) (name : Option (Nat × Nat))
+    (opts : Opts) (clash : Bool) : Except Verdict Stmt :=
+  match validatePinned kind opts clash c mid with
+  | .ok => .ok (wrapped c pre mid post (newRegion c pre mid post kind name))
   | v => .error v
 
 /-! ## Region names -/
@@ -255,7 +381,8 @@ def applyAtPinned (c : Ctx) (pre mid post : List Stmt) (r : RInfo) : Except Verd
 def regions : Stmt → List RInfo
   | .seq a b => regions a ++ regions b
   | .ite a b => regions a ++ regions b
-  | .loop b => regions b
+  | .loop _ b => regions b
+  | .dir _ b => regions b
   | .region r b => r :: regions b
   | _ => []
 
@@ -319,5 +446,18 @@ def uniqueNames : Table → List Req → List GName
 def GName.isGen : GName → Bool
   | .gen _ _ _ => true
   | _ => false
+
+/-- `PSyDataNode.gen_code` (PSyKAl code generation): the module name is the PSy-layer module,
+the region is `f"{base}:r{idx}"` where `base` is the invoke name (plus the kernel name if the node
+contains exactly one kernel) and `idx` is the position of the node among all PSyData nodes of the
+PSy-layer tree (`self.root.walk(PSyDataNode)`), unless the node carries a user-supplied name
+(which `GOceanExtractTrans`/`LFRicExtractTrans` obtain from `get_unique_region_name`). -/
+def genCodeNamesFrom (module : Nat) : Nat → List (Option (Nat × Nat) × Nat) → List GName
+  | _, [] => []
+  | i, (some (m, r), _) :: rest => GName.user m r :: genCodeNamesFrom module (i+1) rest
+  | i, (none, base) :: rest => GName.gen module base i :: genCodeNamesFrom module (i+1) rest
+
+def genCodeNames (module : Nat) (nodes : List (Option (Nat × Nat) × Nat)) : List GName :=
+  genCodeNamesFrom module 0 nodes
 
 end C28
